@@ -22,7 +22,7 @@ CHECKS = {
                     "property ops, refinement, smoothing, simplification, hull, decompose, split, Booleans, Minkowski, batch) up to the depth bound are executed; "
                     "the full C01 predicate is evaluated on every reached state from its MeshGL64 export; a crash or sanitizer report is an outcome."),
         level_note="Trusted: compiler, ASan/UBSan, lib/topo.h. Bound: programs of <= 2 unary steps, one binary step with a unary step before or after (quick); 3 unary steps and all seeds as second operand (thorough). States above 6000 triangles are checked but not expanded.",
-        runs=[S("seq-asan", quick=400, thorough=3000, workers=8)],
+        runs=[S("seq-asan", quick=1500, thorough=5400, workers=8)],
         rule=("programs = seed | seed.u | seed.u.u | b(s,s') | b(s,s').u | b(s.u,s') | b(s',s.u) over lib/alphabet.h; states de-duplicated by canonical geometry hash; "
               "non-trivial = NoError and non-empty. A violating state is reported once and not expanded."),
         bounds=dict(quick="depth 2 unary, 1 binary + 1 unary; second operand of mixed phases from every 3rd seed",
